@@ -28,8 +28,8 @@ META = dict(
 # (indexes into AllBlocks, (MaxPoolInit, MaxExtraInit, MaxPoolFill, MaxExtraFill)); one TLC run each
 SMALL, LARGE = (2, 1, 1, 1), (3, 2, 2, 1)
 QUICK_GROUPS = [([1, 2, 6], SMALL), ([4], SMALL), ([5], SMALL)]
-THOROUGH_GROUPS = ([([1, 2, 3, 10, 11, 4], LARGE), ([5, 6], LARGE), ([12, 13, 14], LARGE)] + [([i], LARGE) for i in (7, 8, 15, 16, 17)]
-                   + [([i], SMALL) for i in (9, 18, 19, 20)])
+THOROUGH_GROUPS = ([([1, 2, 3, 10, 11, 4], LARGE), ([5, 6], LARGE), ([12, 13, 14], LARGE)] + [([i], LARGE) for i in (7, 8, 17)]
+                   + [([i], SMALL) for i in (15, 16, 9, 18, 19, 20)])
 
 
 def report(ctx, binary, res, max_report=5):
